@@ -3,7 +3,7 @@ single-site perturbations of long strings, length boundaries."""
 import itertools
 import random
 from dbuswire import build_message, SIGNAL, METHOD_CALL, F_PATH, F_INTERFACE, F_MEMBER, F_DESTINATION, F_ERROR_NAME, \
-    F_REPLY_SERIAL, ERROR
+    F_REPLY_SERIAL, ERROR, F_SENDER
 
 NAME_ALPHA = [b'a', b'Z', b'0', b'_', b'-', b'.', b':', b'/', b'\x00', b'\x80', b' ']
 PATH_ALPHA = [b'a', b'0', b'_', b'/', b'-', b'.', b'\x00', b'\x80']
@@ -13,16 +13,33 @@ UTF8_CLASSES = [0x00, 0x41, 0x7f, 0x80, 0x8f, 0x90, 0x9f, 0xa0, 0xbf, 0xc0, 0xc1
 
 
 def msg_with(g, s):
-    """a message that is valid except possibly for the string s used in the role of grammar g; None = no such route"""
+    """a message that is valid except possibly for the string s used in the role of grammar g; None = no such route.
+    The header validator works on a slice of the header: in every second case (decided by the string itself) more fields
+    follow the one under test, with dots, slashes and colons of their own, which must not leak into the verdict"""
+    more = (sum(bytes(s)) + len(s)) % 2 == 1
     try:
         if g == 'bus':
-            return build_message(SIGNAL, 1, {F_PATH: '/a', F_INTERFACE: 'a.b', F_MEMBER: 'M', F_DESTINATION: s})
+            f = {F_PATH: '/a', F_INTERFACE: 'a.b', F_MEMBER: 'M', F_DESTINATION: s}
+            if more:
+                f[F_SENDER] = ':1.7'
+            return build_message(SIGNAL, 1, f)
         if g == 'ifc':
-            return build_message(SIGNAL, 1, {F_PATH: '/a', F_INTERFACE: s, F_MEMBER: 'M'})
+            f = {F_PATH: '/a', F_INTERFACE: s, F_MEMBER: 'M'}
+            if more:
+                f[F_DESTINATION] = 'org.example.Dest'
+                f[F_SENDER] = ':1.7'
+            return build_message(SIGNAL, 1, f)
         if g == 'mem':
-            return build_message(SIGNAL, 1, {F_PATH: '/a', F_INTERFACE: 'a.b', F_MEMBER: s})
+            f = {F_PATH: '/a', F_INTERFACE: 'a.b', F_MEMBER: s}
+            if more:
+                f[F_DESTINATION] = 'org.example.Dest'
+            return build_message(SIGNAL, 1, f)
         if g == 'err':
-            return build_message(ERROR, 1, {F_ERROR_NAME: s, F_REPLY_SERIAL: 1})
+            f = {F_ERROR_NAME: s, F_REPLY_SERIAL: 1}
+            if more:
+                f[F_DESTINATION] = ':1.5'
+                f[F_SENDER] = 'org.example.Sender'
+            return build_message(ERROR, 1, f)
         if g == 'path':
             return build_message(SIGNAL, 1, {F_PATH: '/a', F_INTERFACE: 'a.b', F_MEMBER: 'M'}, 'o', [s])
         if g == 'sig':
